@@ -272,32 +272,120 @@ theorem litOk_lt {s : Bool} {w n : Nat} (h : litOk s w n = true) : n < 2 ^ (if s
 theorem lt_of_constOk {s : Bool} {w n : Nat} (h : n < 2 ^ (if s then w - 1 else w)) : n < 2 ^ w :=
   Nat.lt_of_lt_of_le h (pow_le_of_le (by split <;> omega))
 
-/-- What `lowerE` guarantees for the expression `e`. -/
-abbrev ESound (P : Prog) (e : Expr) : Prop :=
+/-- What `lowerE` (with fuel `f`) guarantees for the expression `e`. -/
+def ESoundAt (P : Prog) (f : Nat) (e : Expr) : Prop :=
   ∀ (nm : NEnv) (next : Nat) (aa : SArg) (t : Ty) (code : List SInstr) (next' : Nat) (env : Env)
     (st st' : Nat → Nat),
-    lowerE nm e next = some (aa, t, code, next') → Rel st nm env → Below next nm →
+    lowerE P f nm e next = some (aa, t, code, next') → Rel st nm env → Below next nm →
     ssaSteps code st = some st' →
-    ∃ (w wa a f : Nat), sbits t = some w ∧ argVal st' aa = (a, wa) ∧ a < 2 ^ wa ∧ wa ≤ w ∧
-      (wa = w ∨ aa.isConst = true) ∧ (aa.isConst = true → constVal aa = a ∧ ConstOk t a) ∧
-      evalE P f e env = some (t.decode a) ∧ Frame next st st' ∧ next ≤ next' ∧ NoRet code ∧
+    ∃ (wa a fi : Nat), argVal st' aa = (a, wa) ∧ a < 2 ^ wa ∧ wa ≤ t.bits ∧
+      (wa = t.bits ∨ aa.isConst = true) ∧ (aa.isConst = true → constVal aa = a ∧ ConstOk t a) ∧
+      evalE P fi e env = some (t.decode a) ∧ Frame next st st' ∧ next ≤ next' ∧ NoRet code ∧
       ArgBelow next' aa
+
+/-- Expressions: if the emitted code runs (no division by zero), the
+interpreter is defined and the operand carries its value. -/
+def ESound (P : Prog) (f : Nat) : Prop := ∀ e, ESoundAt P f e
 
 theorem binE_num (op : BinOp) (s : Bool) (w a b : Nat) (hop : op ≠ .land) (hop' : op ≠ .lor) :
     binE op (.num s w a) (some (.num s w b)) = binop op (.num s w a) (.num s w b) := by
   cases op <;> simp_all [binE]
 
-/-- `a op b`, given the guarantees for the operands. -/
-theorem bin_sound_case (P : Prog) (op : BinOp) (a b : Expr) (iha : ESound P a) (ihb : ESound P b) :
-    ESound P (.bin op a b) := by
+theorem lit_case (P : Prog) (f : Nat) (t : Ty) (n : Nat) : ESoundAt P (f + 1) (.lit t n) := by
+  intro nm next aa t' code next' env st st' h hrel hbel hrun
+  cases t with
+  | bool =>
+    simp only [lowerE, Option.some.injEq, Prod.mk.injEq] at h
+    obtain ⟨h1, h2, h3, h4⟩ := h
+    subst h1; subst h2; subst h3; subst h4
+    simp only [ssaSteps, Option.some.injEq] at hrun; subst hrun
+    refine ⟨1, if n = 0 then 0 else 1, 1, ?_, ?_, Nat.le_refl _, Or.inl rfl, ?_, ?_, Frame.refl _ _,
+      Nat.le_refl _, NoRet_nil, trivial⟩
+    · by_cases hn : n = 0 <;> simp [argVal, hn]
+    · split <;> decide
+    · intro _; exact ⟨rfl, fun s w hs => by simp [numTy] at hs⟩
+    · by_cases hn : n = 0 <;> simp [evalE, litVal, Ty.decode, hn]
+  | int w =>
+    simp only [lowerE] at h
+    split at h
+    · rename_i hok
+      simp only [Option.some.injEq, Prod.mk.injEq] at h
+      obtain ⟨h1, h2, h3, h4⟩ := h
+      subst h1; subst h2; subst h3; subst h4
+      simp only [ssaSteps, Option.some.injEq] at hrun; subst hrun
+      have hlt := litOk_lt hok
+      obtain ⟨b, hb1, hb2, hb3, hb4, hb5⟩ := constArg_val st n true w (lt_of_constOk hlt)
+      refine ⟨b, n, 1, hb1, hb2, hb3, Or.inr hb4, ?_, ?_, Frame.refl _ _, Nat.le_refl _, NoRet_nil, ?_⟩
+      · intro _; refine ⟨hb5, fun s w' hs => ?_⟩
+        simp only [numTy, Option.some.injEq, Prod.mk.injEq] at hs
+        obtain ⟨e1, e2⟩ := hs; subst e1; subst e2; exact hlt
+      · simp [evalE, litVal, Ty.decode, wrap]
+      · exact constArg_below _ _ _ _
+    · cases h
+  | uint w =>
+    simp only [lowerE] at h
+    split at h
+    · rename_i hok
+      simp only [Option.some.injEq, Prod.mk.injEq] at h
+      obtain ⟨h1, h2, h3, h4⟩ := h
+      subst h1; subst h2; subst h3; subst h4
+      simp only [ssaSteps, Option.some.injEq] at hrun; subst hrun
+      have hlt := litOk_lt hok
+      obtain ⟨b, hb1, hb2, hb3, hb4, hb5⟩ := constArg_val st n false w (lt_of_constOk hlt)
+      refine ⟨b, n, 1, hb1, hb2, hb3, Or.inr hb4, ?_, ?_, Frame.refl _ _, Nat.le_refl _, NoRet_nil, ?_⟩
+      · intro _; refine ⟨hb5, fun s w' hs => ?_⟩
+        simp only [numTy, Option.some.injEq, Prod.mk.injEq] at hs
+        obtain ⟨e1, e2⟩ := hs; subst e1; subst e2; exact hlt
+      · simp [evalE, litVal, Ty.decode, wrap]
+      · exact constArg_below _ _ _ _
+    · cases h
+  | arr _ _ => simp [lowerE] at h
+  | struct _ => simp [lowerE] at h
+
+theorem var_case (P : Prog) (f : Nat) (x : String) : ESoundAt P (f + 1) (.var x) := by
   intro nm next aa t code next' env st st' h hrel hbel hrun
   simp only [lowerE] at h
-  cases hla : lowerE nm a next with
+  cases hf : nm.find x with
+  | none => simp [hf] at h
+  | some b =>
+    obtain ⟨v, hlook, hbv⟩ := Rel.find hrel b hf
+    cases b with
+    | val id t0 =>
+      simp only [hf, Option.some.injEq, Prod.mk.injEq] at h
+      obtain ⟨hlt, hv⟩ := hbv
+      obtain ⟨h1, h2, h3, h4⟩ := h
+      subst h1; subst h2; subst h3; subst h4
+      simp only [ssaSteps, Option.some.injEq] at hrun; subst hrun
+      refine ⟨t0.bits, st id, 1, by simp [argVal, SStore.get], hlt, Nat.le_refl _, Or.inl rfl, ?_, ?_,
+        Frame.refl _ _, Nat.le_refl _, NoRet_nil, Below.find hbel hf⟩
+      · intro hc; simp [SArg.isConst] at hc
+      · simp [evalE, hlook, hv]
+    | konst n =>
+      simp only [hf, Option.some.injEq, Prod.mk.injEq] at h
+      obtain ⟨h1, h2, h3, h4⟩ := h
+      subst h1; subst h2; subst h3; subst h4
+      simp only [ssaSteps, Option.some.injEq] at hrun; subst hrun
+      obtain ⟨hn, hv⟩ := hbv
+      have hn32 : n < 2 ^ 32 := by omega
+      obtain ⟨b, hb1, hb2, hb3, hb4, hb5⟩ := constArg_val st n true 32 hn32
+      refine ⟨b, n, 1, hb1, hb2, hb3, Or.inr hb4, ?_, ?_, Frame.refl _ _, Nat.le_refl _, NoRet_nil, ?_⟩
+      · intro _; refine ⟨hb5, fun s w' hs => ?_⟩
+        simp only [numTy, Option.some.injEq, Prod.mk.injEq] at hs
+        obtain ⟨e1, e2⟩ := hs; subst e1; subst e2; simpa using hn
+      · simp [evalE, hlook, hv, Ty.decode, Nat.mod_eq_of_lt hn32]
+      · exact constArg_below _ _ _ _
+
+/-- `a op b`, given the guarantees for the operands. -/
+theorem bin_case (P : Prog) (f : Nat) (ih : ESound P f) (op : BinOp) (a b : Expr) :
+    ESoundAt P (f + 1) (.bin op a b) := by
+  intro nm next aa t code next' env st st' h hrel hbel hrun
+  simp only [lowerE] at h
+  cases hla : lowerE P f nm a next with
   | none => simp [hla] at h
   | some ra =>
     obtain ⟨aa1, ta, ca, n1⟩ := ra
     simp only [hla] at h
-    cases hlb : lowerE nm b n1 with
+    cases hlb : lowerE P f nm b n1 with
     | none => simp [hlb] at h
     | some rb =>
       obtain ⟨ba, tb, cb, n2⟩ := rb
@@ -310,362 +398,253 @@ theorem bin_sound_case (P : Prog) (op : BinOp) (a b : Expr) (iha : ESound P a) (
         · rename_i hte
           have hte' : ta = tb := tyEq_eq (by simpa using hte)
           subst hte'
-          -- the operands: everything that follows from running `ca ++ cb`
-          have operands : ∀ st2, ssaSteps (ca ++ cb) st = some st2 →
-              ∃ (w wa1 a1 wa2 a2 f : Nat), sbits ta = some w ∧ argVal st2 aa1 = (a1, wa1) ∧
-                argVal st2 ba = (a2, wa2) ∧ a1 < 2 ^ wa1 ∧ a2 < 2 ^ wa2 ∧ wa1 ≤ w ∧ wa2 ≤ w ∧
-                (wa1 = w ∨ aa1.isConst = true) ∧ (wa2 = w ∨ ba.isConst = true) ∧
-                (aa1.isConst = true → constVal aa1 = a1) ∧ (ba.isConst = true → constVal ba = a2) ∧
-                evalE P f a env = some (ta.decode a1) ∧ evalE P f b env = some (ta.decode a2) ∧
-                Frame next st st2 ∧ next ≤ n1 ∧ n1 ≤ n2 ∧ NoRet (ca ++ cb) ∧ ArgBelow n2 aa1 ∧ ArgBelow n2 ba := by
-            intro st2 hr
-            obtain ⟨st1, hr1, hr2⟩ := ssaSteps_split hr
-            obtain ⟨w1, wa1, a1, f1, hw1, harg1, hlt1, hle1, hor1, hc1, he1, hfr1, hn1, hnr1, hab1⟩ :=
-              iha nm next aa1 ta ca n1 env st st1 hla hrel hbel hr1
-            obtain ⟨w2, wa2, a2, f2, hw2, harg2, hlt2, hle2, hor2, hc2, he2, hfr2, hn2, hnr2, hab2⟩ :=
-              ihb nm n1 ba ta cb n2 env st1 st2 hlb (hrel.frame hbel hfr1) (hbel.mono hn1) hr2
-            have hww : w2 = w1 := by rw [hw1] at hw2; exact (Option.some.inj hw2).symm
-            subst hww
-            exact ⟨w2, wa1, a1, wa2, a2, max f1 f2, hw1, by rw [argVal_frame hab1 hfr2]; exact harg1, harg2, hlt1, hlt2,
-              hle1, hle2, hor1, hor2, fun hc => (hc1 hc).1, fun hc => (hc2 hc).1,
-              evalE_mono P (Nat.le_max_left f1 f2) a env _ he1, evalE_mono P (Nat.le_max_right f1 f2) b env _ he2,
-              hfr1.trans hfr2 hn1, hn1, hn2, NoRet_append hnr1 hnr2, hab1.mono hn2, hab2⟩
           cases hlo : lowerBin op ta with
           | none => simp [hlo] at h
           | some r0 =>
             obtain ⟨sop, tr⟩ := r0
-            simp only [hlo] at h
-            cases hwr : sbits tr with
-            | none => simp [hwr] at h
-            | some wr =>
-              simp only [hwr, Option.some.injEq, Prod.mk.injEq] at h
-              obtain ⟨h1, h2, h3, h4⟩ := h
-              subst h1; subst h2; subst h3; subst h4
-              obtain ⟨st2, hr12, hr3⟩ := ssaSteps_split hrun
-              obtain ⟨w, wa1, a1, wa2, a2, f, hw, harg1, harg2, hlt1, hlt2, hle1, hle2, hor1, hor2, _, _, he1, he2,
-                hfr, hn1, hn2, hnr, _, _⟩ := operands st2 hr12
-              obtain ⟨r, hev, hst'⟩ := ssaSteps_one hr3
-              simp only [List.map_cons, List.map_nil, harg1, harg2] at hev
-              have hmax : max wa1 wa2 = w := by
-                rcases hor1 with e | e
+            simp only [hlo, Option.some.injEq, Prod.mk.injEq] at h
+            obtain ⟨h1, h2, h3, h4⟩ := h
+            subst h1; subst h2; subst h3; subst h4
+            obtain ⟨⟨w, hw⟩, ⟨wr, hwr⟩⟩ := lowerBin_sbits hlo
+            have hwb := sbits_bits hw
+            have hwrb := sbits_bits hwr
+            obtain ⟨st2, hr12, hr3⟩ := ssaSteps_split hrun
+            obtain ⟨st1, hr1, hr2⟩ := ssaSteps_split hr12
+            obtain ⟨wa1, a1, f1, harg1, hlt1, hle1, hor1, hc1, he1, hfr1, hn1, hnr1, hab1⟩ :=
+              ih a nm next aa1 ta ca n1 env st st1 hla hrel hbel hr1
+            obtain ⟨wa2, a2, f2, harg2, hlt2, hle2, hor2, hc2, he2, hfr2, hn2, hnr2, hab2⟩ :=
+              ih b nm n1 ba ta cb n2 env st1 st2 hlb (hrel.frame hbel hfr1) (hbel.mono hn1) hr2
+            have harg1' : argVal st2 aa1 = (a1, wa1) := by rw [argVal_frame hab1 hfr2]; exact harg1
+            rw [hwb] at hle1 hle2 hor1 hor2
+            obtain ⟨r, hev, hst'⟩ := ssaSteps_one hr3
+            simp only [List.map_cons, List.map_nil, harg1', harg2] at hev
+            have hmax : max wa1 wa2 = w := by
+              rcases hor1 with e | e
+              · omega
+              · rcases hor2 with e2 | e2
                 · omega
-                · rcases hor2 with e2 | e2
-                  · omega
-                  · simp [e, e2] at hnc
-              have hA1 : a1 < 2 ^ w := Nat.lt_of_lt_of_le hlt1 (pow_le_of_le hle1)
-              have hA2 : a2 < 2 ^ w := Nat.lt_of_lt_of_le hlt2 (pow_le_of_le hle2)
-              obtain ⟨hrl, hbin⟩ := bin_sound op ta w a1 a2 wa1 wa2 hw hA1 hA2 hmax sop tr wr r hlo hwr hev
-              subst hst'
-              refine ⟨wr, wr, r, f + 1, hwr, by simp [argVal, SStore.get], hrl, Nat.le_refl _, Or.inl rfl,
-                ?_, ?_, ?_, by omega, ?_, by simp [ArgBelow]⟩
-              · intro hc; simp [SArg.isConst] at hc
-              · simp only [evalE, he1, he2, Option.bind_some]
-                exact hbin
-              · exact hfr.trans (Frame_set (by omega)) (by omega)
-              · refine NoRet_append hnr (NoRet_one ?_)
-                cases ta <;> cases op <;> simp [lowerBin] at hlo <;> (obtain ⟨e1, _⟩ := hlo; subst e1; simp)
+                · simp [e, e2] at hnc
+            have hA1 : a1 < 2 ^ w := Nat.lt_of_lt_of_le hlt1 (pow_le_of_le hle1)
+            have hA2 : a2 < 2 ^ w := Nat.lt_of_lt_of_le hlt2 (pow_le_of_le hle2)
+            rw [hwrb] at hev
+            obtain ⟨hrl, hbin⟩ := bin_sound op ta w a1 a2 wa1 wa2 hw hA1 hA2 hmax sop tr wr r hlo hwr hev
+            subst hst'
+            refine ⟨wr, r, max f1 f2 + 1, by simp [argVal, SStore.get, hwrb], hrl, by omega, Or.inl hwrb.symm,
+              ?_, ?_, ?_, by omega, ?_, by simp [ArgBelow]⟩
+            · intro hc; simp [SArg.isConst] at hc
+            · simp only [evalE, evalE_mono P (Nat.le_max_left f1 f2) a env _ he1,
+                evalE_mono P (Nat.le_max_right f1 f2) b env _ he2, Option.bind_some]
+              exact hbin
+            · exact (hfr1.trans hfr2 hn1).trans (Frame_set (by omega)) (by omega)
+            · refine NoRet_append (NoRet_append hnr1 hnr2) (NoRet_one ?_)
+              cases ta <;> cases op <;> simp [lowerBin] at hlo <;> (obtain ⟨e1, _⟩ := hlo; subst e1; simp)
 
-/-- Expressions of the fragment: if the emitted code runs (no division by
-zero), the interpreter is defined and the operand carries its value. -/
-theorem lowerE_sound (P : Prog) : ∀ (e : Expr) (nm : NEnv) (next : Nat) (aa : SArg) (t : Ty)
-    (code : List SInstr) (next' : Nat) (env : Env) (st st' : Nat → Nat),
-    lowerE nm e next = some (aa, t, code, next') → Rel st nm env → Below next nm →
-    ssaSteps code st = some st' →
-    ∃ (w wa a f : Nat), sbits t = some w ∧ argVal st' aa = (a, wa) ∧ a < 2 ^ wa ∧ wa ≤ w ∧
-      (wa = w ∨ aa.isConst = true) ∧ (aa.isConst = true → constVal aa = a ∧ ConstOk t a) ∧
-      evalE P f e env = some (t.decode a) ∧ Frame next st st' ∧ next ≤ next' ∧ NoRet code ∧
-      ArgBelow next' aa
-  | .lit t n, nm, next, aa, t', code, next', env, st, st', h, hrel, hbel, hrun => by
-    cases t with
-    | bool =>
-      simp only [lowerE, Option.some.injEq, Prod.mk.injEq] at h
-      obtain ⟨h1, h2, h3, h4⟩ := h
-      subst h1; subst h2; subst h3; subst h4
-      simp only [ssaSteps, Option.some.injEq] at hrun; subst hrun
-      refine ⟨1, 1, if n = 0 then 0 else 1, 1, rfl, ?_, ?_, Nat.le_refl _, Or.inl rfl, ?_, ?_, Frame.refl _ _,
-        Nat.le_refl _, NoRet_nil, trivial⟩
-      · by_cases hn : n = 0 <;> simp [argVal, hn]
-      · split <;> decide
-      · intro _; exact ⟨rfl, fun s w hs => by simp [numTy] at hs⟩
-      · by_cases hn : n = 0 <;> simp [evalE, litVal, Ty.decode, hn]
-    | int w =>
-      simp only [lowerE] at h
-      split at h
-      · rename_i hok
-        simp only [Option.some.injEq, Prod.mk.injEq] at h
-        obtain ⟨h1, h2, h3, h4⟩ := h
-        subst h1; subst h2; subst h3; subst h4
-        simp only [ssaSteps, Option.some.injEq] at hrun; subst hrun
-        have hlt := litOk_lt hok
-        obtain ⟨b, hb1, hb2, hb3, hb4, hb5⟩ := constArg_val st n true w (lt_of_constOk hlt)
-        refine ⟨w, b, n, 1, rfl, hb1, hb2, hb3, Or.inr hb4, ?_, ?_, Frame.refl _ _, Nat.le_refl _, NoRet_nil, ?_⟩
-        · intro _; refine ⟨hb5, fun s w' hs => ?_⟩
-          simp only [numTy, Option.some.injEq, Prod.mk.injEq] at hs
-          obtain ⟨e1, e2⟩ := hs; subst e1; subst e2; exact hlt
-        · simp [evalE, litVal, Ty.decode, wrap]
-        · exact constArg_below _ _ _ _
-      · cases h
-    | uint w =>
-      simp only [lowerE] at h
-      split at h
-      · rename_i hok
-        simp only [Option.some.injEq, Prod.mk.injEq] at h
-        obtain ⟨h1, h2, h3, h4⟩ := h
-        subst h1; subst h2; subst h3; subst h4
-        simp only [ssaSteps, Option.some.injEq] at hrun; subst hrun
-        have hlt := litOk_lt hok
-        obtain ⟨b, hb1, hb2, hb3, hb4, hb5⟩ := constArg_val st n false w (lt_of_constOk hlt)
-        refine ⟨w, b, n, 1, rfl, hb1, hb2, hb3, Or.inr hb4, ?_, ?_, Frame.refl _ _, Nat.le_refl _, NoRet_nil, ?_⟩
-        · intro _; refine ⟨hb5, fun s w' hs => ?_⟩
-          simp only [numTy, Option.some.injEq, Prod.mk.injEq] at hs
-          obtain ⟨e1, e2⟩ := hs; subst e1; subst e2; exact hlt
-        · simp [evalE, litVal, Ty.decode, wrap]
-        · exact constArg_below _ _ _ _
-      · cases h
-    | arr _ _ => simp [lowerE] at h
-    | struct _ => simp [lowerE] at h
-  | .var x, nm, next, aa, t, code, next', env, st, st', h, hrel, hbel, hrun => by
-    simp only [lowerE] at h
-    cases hf : nm.find x with
-    | none => simp [hf] at h
-    | some b =>
-      obtain ⟨v, hlook, hbv⟩ := Rel.find hrel b hf
-      cases b with
-      | val id t0 =>
-        simp only [hf] at h
-        obtain ⟨w, hw, hlt, hv⟩ := hbv
-        simp only [hw, Option.some.injEq, Prod.mk.injEq] at h
-        obtain ⟨h1, h2, h3, h4⟩ := h
-        subst h1; subst h2; subst h3; subst h4
-        simp only [ssaSteps, Option.some.injEq] at hrun; subst hrun
-        refine ⟨w, w, st id, 1, hw, by simp [argVal, SStore.get], hlt, Nat.le_refl _, Or.inl rfl, ?_, ?_,
-          Frame.refl _ _, Nat.le_refl _, NoRet_nil, Below.find hbel hf⟩
-        · intro hc; simp [SArg.isConst] at hc
-        · simp [evalE, hlook, hv]
-      | konst n =>
-        simp only [hf, Option.some.injEq, Prod.mk.injEq] at h
-        obtain ⟨h1, h2, h3, h4⟩ := h
-        subst h1; subst h2; subst h3; subst h4
-        simp only [ssaSteps, Option.some.injEq] at hrun; subst hrun
-        obtain ⟨hn, hv⟩ := hbv
-        have hn32 : n < 2 ^ 32 := by omega
-        obtain ⟨b, hb1, hb2, hb3, hb4, hb5⟩ := constArg_val st n true 32 hn32
-        refine ⟨32, b, n, 1, rfl, hb1, hb2, hb3, Or.inr hb4, ?_, ?_, Frame.refl _ _, Nat.le_refl _, NoRet_nil, ?_⟩
-        · intro _; refine ⟨hb5, fun s w' hs => ?_⟩
-          simp only [numTy, Option.some.injEq, Prod.mk.injEq] at hs
-          obtain ⟨e1, e2⟩ := hs; subst e1; subst e2; simpa using hn
-        · simp [evalE, hlook, hv, Ty.decode, Nat.mod_eq_of_lt hn32]
-        · exact constArg_below _ _ _ _
-  | .bin op a b, nm, next, aa, t, code, next', env, st, st', h, hrel, hbel, hrun =>
-    bin_sound_case P op a b (fun nm next aa t code next' env st st' => lowerE_sound P a nm next aa t code next' env st st')
-      (fun nm next aa t code next' env st st' => lowerE_sound P b nm next aa t code next' env st st')
-      nm next aa t code next' env st st' h hrel hbel hrun
-  | .shift left a k, nm, next, aa, t, code, next', env, st, st', h, hrel, hbel, hrun => by
-    simp only [lowerE] at h
-    cases hla : lowerE nm a next with
-    | none => simp [hla] at h
-    | some ra =>
-      obtain ⟨aa1, ta, ca, n1⟩ := ra
-      simp only [hla] at h
-      split at h
-      · cases h
-      · rename_i hnc
-        cases hnt : numTy ta with
-        | none => simp [hnt] at h
-        | some r0 =>
-          obtain ⟨s, w⟩ := r0
-          simp only [hnt, Option.some.injEq, Prod.mk.injEq] at h
-          obtain ⟨h1, h2, h3, h4⟩ := h
-          subst h1; subst h2; subst h3; subst h4
-          obtain ⟨st1, hr1, hr3⟩ := ssaSteps_split hrun
-          obtain ⟨w1, wa1, a1, f1, hw1, harg1, hlt1, hle1, hor1, hc1, he1, hfr1, hn1, hnr1, hab1⟩ :=
-            lowerE_sound P a nm next aa1 ta ca n1 env st st1 hla hrel hbel hr1
-          have hww : w1 = w := by rw [numTy_sbits hnt] at hw1; exact (Option.some.inj hw1).symm
-          subst hww
-          have hwa : wa1 = w1 := by
-            rcases hor1 with e | e
-            · exact e
-            · simp [e] at hnc
-          subst hwa
-          obtain ⟨r, hev, hst'⟩ := ssaSteps_one hr3
-          have hk : argVal st1 (.k k) = (k, 0) := rfl
-          simp only [List.map_cons, List.map_nil, harg1, hk] at hev
-          obtain ⟨hrl, hsh⟩ := shift_sound left s wa1 a1 k r hlt1 hev
-          subst hst'
-          refine ⟨wa1, wa1, r, f1 + 1, hw1, by simp [argVal, SStore.get], hrl, Nat.le_refl _, Or.inl rfl,
-            ?_, ?_, ?_, by omega, ?_, by simp [ArgBelow]⟩
-          · intro hc; simp [SArg.isConst] at hc
-          · simp only [evalE, he1, Option.bind_some]
-            rw [decode_num hnt hlt1, decode_num hnt hrl]
-            exact hsh
-          · exact hfr1.trans (Frame_set (by omega)) (by omega)
-          · refine NoRet_append hnr1 (NoRet_one ?_)
-            cases left <;> cases s <;> simp
-  | .not a, nm, next, aa, t, code, next', env, st, st', h, hrel, hbel, hrun => by
-    simp only [lowerE] at h
-    cases hla : lowerE nm a next with
-    | none => simp [hla] at h
-    | some ra =>
-      obtain ⟨aa1, ta, ca, n1⟩ := ra
-      simp only [hla] at h
-      split at h
-      · cases h
-      · rename_i hnc
-        cases ta with
-        | bool =>
-          simp only [Option.some.injEq, Prod.mk.injEq] at h
-          obtain ⟨h1, h2, h3, h4⟩ := h
-          subst h1; subst h2; subst h3; subst h4
-          obtain ⟨st1, hr1, hr3⟩ := ssaSteps_split hrun
-          obtain ⟨w1, wa1, a1, f1, hw1, harg1, hlt1, hle1, hor1, hc1, he1, hfr1, hn1, hnr1, hab1⟩ :=
-            lowerE_sound P a nm next aa1 .bool ca n1 env st st1 hla hrel hbel hr1
-          simp only [sbits, Option.some.injEq] at hw1
-          subst hw1
-          have hwa : wa1 = 1 := by
-            rcases hor1 with e | e
-            · exact e
-            · simp [e] at hnc
-          subst hwa
-          obtain ⟨r, hev, hst'⟩ := ssaSteps_one hr3
-          simp only [List.map_cons, List.map_nil, harg1] at hev
-          obtain ⟨hrl, hnv⟩ := not_sound a1 r (by simpa using hlt1) hev
-          subst hst'
-          refine ⟨1, 1, r, f1 + 1, rfl, by simp [argVal, SStore.get], hrl, Nat.le_refl _, Or.inl rfl,
-            ?_, ?_, ?_, by omega, ?_, by simp [ArgBelow]⟩
-          · intro hc; simp [SArg.isConst] at hc
-          · simp only [evalE, he1, Option.bind_some]; exact hnv
-          · exact hfr1.trans (Frame_set (by omega)) (by omega)
-          · exact NoRet_append hnr1 (NoRet_one (by simp))
-        | int _ => cases h
-        | uint _ => cases h
-        | arr _ _ => cases h
-        | struct _ => cases h
-  | .neg a, nm, next, aa, t, code, next', env, st, st', h, hrel, hbel, hrun => by
-    simp only [lowerE] at h
-    cases hla : lowerE nm a next with
-    | none => simp [hla] at h
-    | some ra =>
-      obtain ⟨aa1, ta, ca, n1⟩ := ra
-      simp only [hla] at h
-      split at h
-      · cases h
-      · rename_i hnc
-        cases hnt : numTy ta with
-        | none => simp [hnt] at h
-        | some r0 =>
-          obtain ⟨s, w⟩ := r0
-          simp only [hnt, Option.some.injEq, Prod.mk.injEq] at h
-          obtain ⟨h1, h2, h3, h4⟩ := h
-          subst h1; subst h2; subst h3; subst h4
-          obtain ⟨st1, hr1, hr3⟩ := ssaSteps_split hrun
-          obtain ⟨w1, wa1, a1, f1, hw1, harg1, hlt1, hle1, hor1, hc1, he1, hfr1, hn1, hnr1, hab1⟩ :=
-            lowerE_sound P a nm next aa1 ta ca n1 env st st1 hla hrel hbel hr1
-          have hww : w1 = w := by rw [numTy_sbits hnt] at hw1; exact (Option.some.inj hw1).symm
-          subst hww
-          have hwa : wa1 = w1 := by
-            rcases hor1 with e | e
-            · exact e
-            · simp [e] at hnc
-          subst hwa
-          obtain ⟨r, hev, hst'⟩ := ssaSteps_one hr3
-          have hz : argVal st1 (.const 0 32 32 true 32) = (0, 32) := by simp [argVal, constWires_self]
-          simp only [List.map_cons, List.map_nil, harg1, hz] at hev
-          obtain ⟨hrl, hng⟩ := neg_sound s wa1 a1 32 0 r hlt1 rfl hev
-          subst hst'
-          refine ⟨wa1, wa1, r, f1 + 1, hw1, by simp [argVal, SStore.get], hrl, Nat.le_refl _, Or.inl rfl,
-            ?_, ?_, ?_, by omega, ?_, by simp [ArgBelow]⟩
-          · intro hc; simp [SArg.isConst] at hc
-          · simp only [evalE, he1, Option.bind_some]
-            rw [decode_num hnt hlt1, decode_num hnt hrl]
-            exact hng
-          · exact hfr1.trans (Frame_set (by omega)) (by omega)
-          · exact NoRet_append hnr1 (NoRet_one (by simp))
-  | .cast t0 a, nm, next, aa, t, code, next', env, st, st', h, hrel, hbel, hrun => by
-    simp only [lowerE] at h
-    cases hla : lowerE nm a next with
-    | none => simp [hla] at h
-    | some ra =>
-      obtain ⟨aa1, ta, ca, n1⟩ := ra
-      simp only [hla] at h
+theorem shift_case (P : Prog) (f : Nat) (ih : ESound P f) (left : Bool) (a : Expr) (k : Nat) :
+    ESoundAt P (f + 1) (.shift left a k) := by
+  intro nm next aa t code next' env st st' h hrel hbel hrun
+  simp only [lowerE] at h
+  cases hla : lowerE P f nm a next with
+  | none => simp [hla] at h
+  | some ra =>
+    obtain ⟨aa1, ta, ca, n1⟩ := ra
+    simp only [hla] at h
+    split at h
+    · cases h
+    · rename_i hnc
       cases hnt : numTy ta with
       | none => simp [hnt] at h
       | some r0 =>
         obtain ⟨s, w⟩ := r0
-        cases hnt0 : numTy t0 with
-        | none => simp [hnt, hnt0] at h
-        | some r1 =>
-          obtain ⟨s', w'⟩ := r1
-          simp only [hnt, hnt0] at h
-          have hcv : ∀ x v, castNum s w x s' w' = .num s' w' v → castVal t0 (.num s w x) = some (.num s' w' v) := by
-            intro x v hx
-            cases t0 <;> simp [numTy] at hnt0
-            · obtain ⟨e1, e2⟩ := hnt0; subst e1; subst e2; simp [castVal, hx]
-            · obtain ⟨e1, e2⟩ := hnt0; subst e1; subst e2; simp [castVal, hx]
+        simp only [hnt, Option.some.injEq, Prod.mk.injEq] at h
+        obtain ⟨h1, h2, h3, h4⟩ := h
+        subst h1; subst h2; subst h3; subst h4
+        obtain ⟨st1, hr1, hr3⟩ := ssaSteps_split hrun
+        obtain ⟨wa1, a1, f1, harg1, hlt1, hle1, hor1, hc1, he1, hfr1, hn1, hnr1, hab1⟩ :=
+          ih a nm next aa1 ta ca n1 env st st1 hla hrel hbel hr1
+        have hwb := numTy_bits hnt
+        have hwa : wa1 = w := by
+          rcases hor1 with e | e
+          · rw [e, hwb]
+          · simp [e] at hnc
+        subst hwa
+        obtain ⟨r, hev, hst'⟩ := ssaSteps_one hr3
+        have hk : argVal st1 (.k k) = (k, 0) := rfl
+        simp only [List.map_cons, List.map_nil, harg1, hk] at hev
+        obtain ⟨hrl, hsh⟩ := shift_sound left s wa1 a1 k r hlt1 hev
+        subst hst'
+        refine ⟨wa1, r, f1 + 1, by simp [argVal, SStore.get], hrl, by omega, Or.inl hwb.symm,
+          ?_, ?_, ?_, by omega, ?_, by simp [ArgBelow]⟩
+        · intro hc; simp [SArg.isConst] at hc
+        · simp only [evalE, he1, Option.bind_some]
+          rw [decode_num hnt hlt1, decode_num hnt hrl]
+          exact hsh
+        · exact hfr1.trans (Frame_set (by omega)) (by omega)
+        · refine NoRet_append hnr1 (NoRet_one ?_)
+          cases left <;> cases s <;> simp
+
+theorem not_case (P : Prog) (f : Nat) (ih : ESound P f) (a : Expr) : ESoundAt P (f + 1) (.not a) := by
+  intro nm next aa t code next' env st st' h hrel hbel hrun
+  simp only [lowerE] at h
+  cases hla : lowerE P f nm a next with
+  | none => simp [hla] at h
+  | some ra =>
+    obtain ⟨aa1, ta, ca, n1⟩ := ra
+    simp only [hla] at h
+    split at h
+    · cases h
+    · rename_i hnc
+      cases ta with
+      | bool =>
+        simp only [Option.some.injEq, Prod.mk.injEq] at h
+        obtain ⟨h1, h2, h3, h4⟩ := h
+        subst h1; subst h2; subst h3; subst h4
+        obtain ⟨st1, hr1, hr3⟩ := ssaSteps_split hrun
+        obtain ⟨wa1, a1, f1, harg1, hlt1, hle1, hor1, hc1, he1, hfr1, hn1, hnr1, hab1⟩ :=
+          ih a nm next aa1 .bool ca n1 env st st1 hla hrel hbel hr1
+        have hwa : wa1 = 1 := by
+          rcases hor1 with e | e
+          · exact e
+          · simp [e] at hnc
+        subst hwa
+        obtain ⟨r, hev, hst'⟩ := ssaSteps_one hr3
+        simp only [List.map_cons, List.map_nil, harg1] at hev
+        obtain ⟨hrl, hnv⟩ := not_sound a1 r (by simpa using hlt1) hev
+        subst hst'
+        refine ⟨1, r, f1 + 1, by simp [argVal, SStore.get], hrl, Nat.le_refl _, Or.inl rfl,
+          ?_, ?_, ?_, by omega, ?_, by simp [ArgBelow]⟩
+        · intro hc; simp [SArg.isConst] at hc
+        · simp only [evalE, he1, Option.bind_some]; exact hnv
+        · exact hfr1.trans (Frame_set (by omega)) (by omega)
+        · exact NoRet_append hnr1 (NoRet_one (by simp))
+      | int _ => cases h
+      | uint _ => cases h
+      | arr _ _ => cases h
+      | struct _ => cases h
+
+theorem neg_case (P : Prog) (f : Nat) (ih : ESound P f) (a : Expr) : ESoundAt P (f + 1) (.neg a) := by
+  intro nm next aa t code next' env st st' h hrel hbel hrun
+  simp only [lowerE] at h
+  cases hla : lowerE P f nm a next with
+  | none => simp [hla] at h
+  | some ra =>
+    obtain ⟨aa1, ta, ca, n1⟩ := ra
+    simp only [hla] at h
+    split at h
+    · cases h
+    · rename_i hnc
+      cases hnt : numTy ta with
+      | none => simp [hnt] at h
+      | some r0 =>
+        obtain ⟨s, w⟩ := r0
+        simp only [hnt, Option.some.injEq, Prod.mk.injEq] at h
+        obtain ⟨h1, h2, h3, h4⟩ := h
+        subst h1; subst h2; subst h3; subst h4
+        obtain ⟨st1, hr1, hr3⟩ := ssaSteps_split hrun
+        obtain ⟨wa1, a1, f1, harg1, hlt1, hle1, hor1, hc1, he1, hfr1, hn1, hnr1, hab1⟩ :=
+          ih a nm next aa1 ta ca n1 env st st1 hla hrel hbel hr1
+        have hwb := numTy_bits hnt
+        have hwa : wa1 = w := by
+          rcases hor1 with e | e
+          · rw [e, hwb]
+          · simp [e] at hnc
+        subst hwa
+        obtain ⟨r, hev, hst'⟩ := ssaSteps_one hr3
+        have hz : argVal st1 (.const 0 32 32 true 32) = (0, 32) := by simp [argVal, constWires_self]
+        simp only [List.map_cons, List.map_nil, harg1, hz] at hev
+        obtain ⟨hrl, hng⟩ := neg_sound s wa1 a1 32 0 r hlt1 rfl hev
+        subst hst'
+        refine ⟨wa1, r, f1 + 1, by simp [argVal, SStore.get], hrl, by omega, Or.inl hwb.symm,
+          ?_, ?_, ?_, by omega, ?_, by simp [ArgBelow]⟩
+        · intro hc; simp [SArg.isConst] at hc
+        · simp only [evalE, he1, Option.bind_some]
+          rw [decode_num hnt hlt1, decode_num hnt hrl]
+          exact hng
+        · exact hfr1.trans (Frame_set (by omega)) (by omega)
+        · exact NoRet_append hnr1 (NoRet_one (by simp))
+
+theorem cast_case (P : Prog) (f : Nat) (ih : ESound P f) (t0 : Ty) (a : Expr) : ESoundAt P (f + 1) (.cast t0 a) := by
+  intro nm next aa t code next' env st st' h hrel hbel hrun
+  simp only [lowerE] at h
+  cases hla : lowerE P f nm a next with
+  | none => simp [hla] at h
+  | some ra =>
+    obtain ⟨aa1, ta, ca, n1⟩ := ra
+    simp only [hla] at h
+    cases hnt : numTy ta with
+    | none => simp [hnt] at h
+    | some r0 =>
+      obtain ⟨s, w⟩ := r0
+      cases hnt0 : numTy t0 with
+      | none => simp [hnt, hnt0] at h
+      | some r1 =>
+        obtain ⟨s', w'⟩ := r1
+        simp only [hnt, hnt0] at h
+        have hwb := numTy_bits hnt
+        have hwb0 := numTy_bits hnt0
+        have hcv : ∀ x v, castNum s w x s' w' = .num s' w' v → castVal t0 (.num s w x) = some (.num s' w' v) := by
+          intro x v hx
+          cases t0 <;> simp [numTy] at hnt0
+          · obtain ⟨e1, e2⟩ := hnt0; subst e1; subst e2; simp [castVal, hx]
+          · obtain ⟨e1, e2⟩ := hnt0; subst e1; subst e2; simp [castVal, hx]
+        split at h
+        · -- constant: folded
+          rename_i hisc
           split at h
-          · -- constant: folded
-            rename_i hisc
-            split at h
-            · rename_i hok
-              simp only [Option.some.injEq, Prod.mk.injEq] at h
-              obtain ⟨h1, h2, h3, h4⟩ := h
-              subst h1; subst h2; subst h3; subst h4
-              obtain ⟨w1, wa1, a1, f1, hw1, harg1, hlt1, hle1, hor1, hc1, he1, hfr1, hn1, hnr1, hab1⟩ :=
-                lowerE_sound P a nm next aa1 ta ca n1 env st st' hla hrel hbel hrun
-              obtain ⟨hcv1, hcok⟩ := hc1 hisc
-              rw [hcv1] at hok ⊢
-              have hlt := litOk_lt hok
-              obtain ⟨b, hb1, hb2, hb3, hb4, hb5⟩ := constArg_val st' a1 s' w' (lt_of_constOk hlt)
-              have hww : w1 = w := by rw [numTy_sbits hnt] at hw1; exact (Option.some.inj hw1).symm
-              subst hww
-              have hA1 : a1 < 2 ^ w1 := Nat.lt_of_lt_of_le hlt1 (pow_le_of_le hle1)
-              refine ⟨w', b, a1, f1 + 1, numTy_sbits hnt0, hb1, hb2, hb3, Or.inr hb4, ?_, ?_, hfr1, hn1, hnr1, ?_⟩
-              · intro _; refine ⟨hb5, fun s2 w2 hs => ?_⟩
-                rw [hnt0] at hs
-                simp only [Option.some.injEq, Prod.mk.injEq] at hs
-                obtain ⟨e1, e2⟩ := hs; subst e1; subst e2; exact hlt
-              · simp only [evalE, he1, Option.bind_some]
-                rw [decode_num hnt hA1, decode_num hnt0 (lt_of_constOk hlt)]
-                exact hcv a1 a1 (cast_const s s' w1 w' a1 (hcok s w1 hnt) hlt)
-              · exact constArg_below _ _ _ _
-            · cases h
-          · rename_i hnc
-            split at h
-            · cases h
-            · rename_i hx
-              simp only [Option.some.injEq, Prod.mk.injEq] at h
-              obtain ⟨h1, h2, h3, h4⟩ := h
-              subst h1; subst h2; subst h3; subst h4
-              obtain ⟨st1, hr1, hr3⟩ := ssaSteps_split hrun
-              obtain ⟨w1, wa1, a1, f1, hw1, harg1, hlt1, hle1, hor1, hc1, he1, hfr1, hn1, hnr1, hab1⟩ :=
-                lowerE_sound P a nm next aa1 ta ca n1 env st st1 hla hrel hbel hr1
-              have hww : w1 = w := by rw [numTy_sbits hnt] at hw1; exact (Option.some.inj hw1).symm
-              subst hww
-              have hwa : wa1 = w1 := by
-                rcases hor1 with e | e
-                · exact e
-                · simp [e] at hnc
-              subst hwa
-              have hx' : ¬ (s = true ∧ s' = false ∧ wa1 < w') := by
-                intro ⟨e1, e2, e3⟩; apply hx; simp [e1, e2, e3]
-              obtain ⟨v, hv, hcast, hevv⟩ := cast_evalOp s s' wa1 w' a1 hlt1 hx'
-              obtain ⟨r, hev, hst'⟩ := ssaSteps_one hr3
-              simp only [List.map_cons, List.map_nil, harg1] at hev
-              have hrv : r = v := by
-                have := hev.symm.trans hevv
-                exact Option.some.inj this
-              subst hrv
-              subst hst'
-              refine ⟨w', w', r, f1 + 1, numTy_sbits hnt0, by simp [argVal, SStore.get], hv, Nat.le_refl _, Or.inl rfl,
-                ?_, ?_, ?_, by omega, ?_, by simp [ArgBelow]⟩
-              · intro hc; simp [SArg.isConst] at hc
-              · simp only [evalE, he1, Option.bind_some]
-                rw [decode_num hnt hlt1, decode_num hnt0 hv]
-                exact hcv a1 r hcast
-              · exact hfr1.trans (Frame_set (by omega)) (by omega)
-              · refine NoRet_append hnr1 (NoRet_one ?_)
-                split <;> simp
-  | .idx _ _, _, _, _, _, _, _, _, _, _, h, _, _, _ => by simp [lowerE] at h
-  | .fld _ _, _, _, _, _, _, _, _, _, _, h, _, _, _ => by simp [lowerE] at h
-  | .call _ _, _, _, _, _, _, _, _, _, _, h, _, _, _ => by simp [lowerE] at h
+          · rename_i hok
+            simp only [Option.some.injEq, Prod.mk.injEq] at h
+            obtain ⟨h1, h2, h3, h4⟩ := h
+            subst h1; subst h2; subst h3; subst h4
+            obtain ⟨wa1, a1, f1, harg1, hlt1, hle1, hor1, hc1, he1, hfr1, hn1, hnr1, hab1⟩ :=
+              ih a nm next aa1 ta ca n1 env st st' hla hrel hbel hrun
+            obtain ⟨hcv1, hcok⟩ := hc1 hisc
+            rw [hcv1] at hok ⊢
+            have hlt := litOk_lt hok
+            obtain ⟨b, hb1, hb2, hb3, hb4, hb5⟩ := constArg_val st' a1 s' w' (lt_of_constOk hlt)
+            rw [hwb] at hle1
+            have hA1 : a1 < 2 ^ w := Nat.lt_of_lt_of_le hlt1 (pow_le_of_le hle1)
+            refine ⟨b, a1, f1 + 1, hb1, hb2, by omega, Or.inr hb4, ?_, ?_, hfr1, hn1, hnr1, ?_⟩
+            · intro _; refine ⟨hb5, fun s2 w2 hs => ?_⟩
+              rw [hnt0] at hs
+              simp only [Option.some.injEq, Prod.mk.injEq] at hs
+              obtain ⟨e1, e2⟩ := hs; subst e1; subst e2; exact hlt
+            · simp only [evalE, he1, Option.bind_some]
+              rw [decode_num hnt hA1, decode_num hnt0 (lt_of_constOk hlt)]
+              exact hcv a1 a1 (cast_const s s' w w' a1 (hcok s w hnt) hlt)
+            · exact constArg_below _ _ _ _
+          · cases h
+        · rename_i hnc
+          split at h
+          · cases h
+          · rename_i hx
+            simp only [Option.some.injEq, Prod.mk.injEq] at h
+            obtain ⟨h1, h2, h3, h4⟩ := h
+            subst h1; subst h2; subst h3; subst h4
+            obtain ⟨st1, hr1, hr3⟩ := ssaSteps_split hrun
+            obtain ⟨wa1, a1, f1, harg1, hlt1, hle1, hor1, hc1, he1, hfr1, hn1, hnr1, hab1⟩ :=
+              ih a nm next aa1 ta ca n1 env st st1 hla hrel hbel hr1
+            have hwa : wa1 = w := by
+              rcases hor1 with e | e
+              · rw [e, hwb]
+              · simp [e] at hnc
+            subst hwa
+            have hx' : ¬ (s = true ∧ s' = false ∧ wa1 < w') := by
+              intro ⟨e1, e2, e3⟩; apply hx; simp [e1, e2, e3]
+            obtain ⟨v, hv, hcast, hevv⟩ := cast_evalOp s s' wa1 w' a1 hlt1 hx'
+            obtain ⟨r, hev, hst'⟩ := ssaSteps_one hr3
+            simp only [List.map_cons, List.map_nil, harg1] at hev
+            have hrv : r = v := by
+              have := hev.symm.trans hevv
+              exact Option.some.inj this
+            subst hrv
+            subst hst'
+            refine ⟨w', r, f1 + 1, by simp [argVal, SStore.get], hv, by omega, Or.inl hwb0.symm,
+              ?_, ?_, ?_, by omega, ?_, by simp [ArgBelow]⟩
+            · intro hc; simp [SArg.isConst] at hc
+            · simp only [evalE, he1, Option.bind_some]
+              rw [decode_num hnt hlt1, decode_num hnt0 hv]
+              exact hcv a1 r hcast
+            · exact hfr1.trans (Frame_set (by omega)) (by omega)
+            · refine NoRet_append hnr1 (NoRet_one ?_)
+              split <;> simp
 
 end Mpc.Mpcl.Ssa
